@@ -11,7 +11,9 @@ PROPS = ["C%02d" % i for i in range(1, 19)]
 
 
 def sh(cmd, **kw):
-    return subprocess.run(cmd, shell=True, stdout=subprocess.PIPE, stderr=subprocess.STDOUT, text=True, **kw)
+    # evidence of runs on a deliberately broken tree must not overwrite the evidence of the real tree
+    env = dict(os.environ, VERIF_EVIDENCE_DIR="/tmp/verif_seeded_evidence")
+    return subprocess.run(cmd, shell=True, stdout=subprocess.PIPE, stderr=subprocess.STDOUT, text=True, env=env, **kw)
 
 
 def main():
